@@ -485,6 +485,48 @@ def run(ctx):
                      'read-only view)', 2)
     _table_passthrough(ctx, repo)
 
+    # ---- R13q: the legacy helper fails when asked to, whatever else is asked
+    ctx.rule('R13q', 'utf8tolatex(): in the branch for a character without a rule, everything that adds to the result (the '
+                     'substitute, the raw character) happens only where `fail_bad_chars` is known to be false: with '
+                     'fail_bad_chars=True a ValueError is raised whatever substitute_bad_chars says', 1)
+    lem = repo.mod('pylatexenc.latexencode')
+    u8 = lem.functions.get('utf8tolatex')
+    if u8 is None:
+        ctx.unknown('R13q', lem, None, 'utf8tolatex not found', construct='utf8tolatex: fail_bad_chars')
+    else:
+        raises_ = [r_ for r_ in ast.walk(u8) if isinstance(r_, ast.Raise) and isinstance(r_.exc, ast.Call)
+                   and call_name(r_.exc) == 'ValueError']
+        n_q = 0
+        for r_ in raises_:
+            # the innermost `else:` / block that holds the raise and the alternatives to it
+            top = None
+            for p_ in parents(r_):
+                if isinstance(p_, ast.If) and '_bad_chars' in unparse(p_.test):
+                    top = p_
+            if top is None:
+                continue
+            holder = getattr(top, '_parent', None)
+            blk = None
+            for fld_ in ('body', 'orelse', 'finalbody'):
+                lst_ = getattr(holder, fld_, None)
+                if isinstance(lst_, list) and any(x_ is top for x_ in lst_):
+                    blk = lst_
+            if blk is None:
+                continue
+            for st_ in blk:
+                for a_ in ast.walk(st_):
+                    if isinstance(a_, ast.AugAssign) and isinstance(a_.target, ast.Name) and a_.target.id == 'result':
+                        n_q += 1
+                        atoms = {(unparse(x_), xp_) for t_, p2_ in atomic_facts(a_) for x_, xp_ in symex._atoms(t_, p2_)}
+                        okq = ('fail_bad_chars', False) in atoms or ('not fail_bad_chars', True) in atoms
+                        ctx.decide('R13q', okq, lem, a_, '%s only where fail_bad_chars is false' % short(a_, 40),
+                                   'utf8tolatex adds %s for a character without a rule on a path where fail_bad_chars may be '
+                                   'true (facts: %s): with fail_bad_chars=True and substitute_bad_chars=True no ValueError is '
+                                   'raised' % (short(a_.value, 30), sorted(t_ for t_, p2_ in atoms if p2_)[-2:]),
+                                   construct='utf8tolatex: %s' % short(a_, 40))
+        if not n_q:
+            ctx.unknown('R13q', lem, u8, 'unknown-character branch of utf8tolatex not found', construct='utf8tolatex: fail_bad_chars')
+
     # ---- R13p: "this rule matched" is reported as True, not as the replacement
     ctx.rule('R13p', 'each _apply_rule_* method returns the constant True on every path on which it applied a replacement: the '
                      'main loop tests the result by truthiness, and a replacement may be empty (U+2061) -- returning the '
